@@ -229,6 +229,11 @@ func verifTraceResult(i int) types.ObjectMap {
 				"traceValue": types.ObjectMap{"@type": []any{"reportSchema:TraceValueNode"}, "subResult": []any{sub}}},
 			types.ObjectMap{"@type": []any{"reportSchema:TraceMessageNode"}, "component": "minCount", "resultPath": "q",
 				"traceValue": types.ObjectMap{"@type": []any{"reportSchema:TraceValueNode"}, "actual": i}},
+			// a data node quoted as actual value: several arrays of nodes below one node
+			types.ObjectMap{"@type": []any{"reportSchema:TraceMessageNode"}, "component": "datatype", "resultPath": "r",
+				"traceValue": types.ObjectMap{"@type": []any{"reportSchema:TraceValueNode"}, "actual": verifQuotedNode()}},
+			types.ObjectMap{"@type": []any{"reportSchema:TraceMessageNode"}, "component": "pattern", "resultPath": "s",
+				"traceValue": types.ObjectMap{"@type": []any{"reportSchema:TraceValueNode"}, "actual": verifQuotedMixedNode(1, 0)}},
 		},
 	}
 }
